@@ -386,7 +386,7 @@ theorem delAtt_refines (E : Env) (f : File) (varid : Int) (raw : Name) (inv : FI
 
 theorem copyAtt_refines (E : Env) (fin : File) (varidIn : Int) (raw : Name) (fout : File) (varidOut : Int)
     (same : Bool) (invIn : FInv E fin) (inv : FInv E fout)
-    (hok : ∀ Ain i ia, fin.getAtts varidIn = some Ain → lookup (names Ain.items) (E.nfc raw) = some i →
+    (hok : E.copyChk = true ∨ ∀ Ain i ia, fin.getAtts varidIn = some Ain → lookup (names Ain.items) (E.nfc raw) = some i →
              Ain.items[i]? = some ia → ¬ (fout.cfg.format ≤ 2 ∧ ia.xtype > 6)) :
     R E (copyAtt E fin varidIn raw fout varidOut same) (sCopyAtt E fin.abs varidIn raw fout.abs varidOut same) := by
   unfold copyAtt sCopyAtt
@@ -411,8 +411,14 @@ theorem copyAtt_refines (E : Env) (fin : File) (varidIn : Int) (raw : Name) (fou
         | none => exact R_err inv _
         | some ia =>
           simp only
-          have hn := hok Ain i ia hgi hl hia
-          simp only [hn, if_false]
+          by_cases hc : fout.cfg.format ≤ 2 ∧ ia.xtype > 6
+          · have hchk : E.copyChk = true := by
+              rcases hok with h | h
+              · exact h
+              · exact absurd hc (h Ain i ia hgi hl hia)
+            simp only [hchk, hc, and_self, if_true]
+            exact R_err inv _
+          simp only [hc, and_false, if_false]
           cases hlo : lookup (names Aout.items) (E.nfc raw) with
           | some idx =>
             simp only
@@ -623,6 +629,7 @@ theorem R_wrap {E : Env} {x : File × Int} {y : SFile × Int} (h : R E x y) :
     operation is not such a copy. -/
 def copyOK (E : Env) (w : World) : MOp → Bool
   | .copyAtt s varid raw s2 _ =>
+    E.copyChk ||
     match w.file s, w.file s2 with
     | some fin, some fout =>
       match fin.getAtts varid with
@@ -737,8 +744,12 @@ theorem wstep_refines (E : Env) (w : World) (op : MOp) (winv : WInv E w) (ok : o
       simp only [Option.map_some]
       refine on_refines winv s2 _ _
         (fun f hf2 inv => R_wrap (copyAtt_refines E fin varid raw f varid2 (s == s2) (winv.files s fin hf) inv ?_))
+      by_cases hchk : E.copyChk = true
+      · exact Or.inl hchk
+      right
       intro Ain i ia h1 h2 h3
-      simp only [copyOK, hf, hf2, h1, h2, h3, Bool.not_eq_true', Bool.and_eq_false_iff, decide_eq_false_iff_not] at cok
+      simp only [copyOK, hchk, Bool.false_or, hf, hf2, h1, h2, h3, Bool.not_eq_true', Bool.and_eq_false_iff,
+        decide_eq_false_iff_not] at cok
       intro hc
       rcases cok with h | h
       · exact h hc.1
@@ -763,6 +774,14 @@ theorem init_abs (n : Nat) : (World.init n).abs = SWorld.init n := by
 def copiesOK (E : Env) : World → List MOp → Bool
   | _, [] => true
   | w, op :: rest => copyOK E w op && copiesOK E (wstep E w op).1 rest
+
+theorem copyOK_of_chk {E : Env} (h : E.copyChk = true) (w : World) (op : MOp) : copyOK E w op = true := by
+  cases op <;> simp [copyOK, h]
+
+theorem copiesOK_of_chk {E : Env} (h : E.copyChk = true) (w : World) (ops : List MOp) : copiesOK E w ops = true := by
+  induction ops generalizing w with
+  | nil => rfl
+  | cons op rest ih => simp [copiesOK, copyOK_of_chk h, ih]
 
 /-- whole programs: same results, same abstract final world, invariant kept -/
 theorem wrun_refines (E : Env) (w : World) (ops : List MOp) (winv : WInv E w) (ok : ∀ op ∈ ops, op.ok)
